@@ -179,6 +179,14 @@ func (c *Ctx) violate(v Violation) {
 		return
 	}
 	if len(c.Res.Violations) < c.maxViol {
+		// what else this process evaluated shortly before (newEvaluator's decoys): part of the history if the cause is
+		// state that outlives an evaluation
+		if len(recentDecoys) > 0 {
+			if v.Extra == nil {
+				v.Extra = map[string]string{}
+			}
+			v.Extra["earlier_in_this_process"] = strings.Join(recentDecoys, " ; ")
+		}
 		c.Res.Violations = append(c.Res.Violations, v)
 	}
 	c.count("violations_seen")
